@@ -14,6 +14,7 @@ client-side chunking / de-duplication of `parallel_sync`), helper lemmas are in
 import Corro.Lemmas.Needs
 import Corro.Lemmas.NeedsSession
 import Corro.Lemmas.NeedsNoDup
+import Corro.Gen.SyncConsts
 
 namespace Corro.Needs
 open Corro.RSet
@@ -290,19 +291,22 @@ theorem never_own_actor (us peer : SyncState) :
 session with the peers whose handshake succeeded: the needs computed per peer are cut with
 `chunk_range(_, k)`, queued per server, popped `d` at a time from the back, server after server,
 and filtered through `req_full` / `req_partials`, which are shared by all servers of the session
-(`k = d = 10` in the code; the theorems hold for all `k, d ≥ 1`).
+(`k = d = 10` in the code as it stands; the theorems hold for all `k, d ≥ 1`, so a retune of either
+constant to any positive value changes neither proof nor correspondence).
 
 Tie to the code.  The code is inline in a task spawned by `parallel_sync`, so it is exercised through
 `parallel_sync` itself: the harness (`harness/src/c04.rs`, op `session`) calls the real
 `parallel_sync(agent, transport, members, our_sync_state)` of a real `Agent` + `Transport` against
 1–4 fake peers on real QUIC endpoints, each answering the handshake with a crafted `State` and
-recording every `SyncMessageV1::Request` it receives; the driver prints `syncSession 10 10 us peers`.
+recording every `SyncMessageV1::Request` it receives; the driver prints `codeSession us peers`, i.e.
+`syncSession k d us peers` at the `k`, `d` that `tools/extract_c04.py` reads off peer/mod.rs at the start of every
+check (`Corro/Gen/SyncConsts.lean`; `code_consts_admissible`, `code_session_sound` below).
 The order of the servers (handshake completion order in the code, list order here) and the order of
 the `Partial` needs of one actor (iteration order of our inner `HashMap`; ascending version here) are
 forced by the harness; the whole sending order `(server, actor, need)` is compared whenever no server
 has needs for two or more actors.  The order of the ACTORS in one server's queue (iteration order of
 the `HashMap` that `compute_available_needs` returns; ascending here) cannot be forced: then the
-comparison is per server and actor when every such server is drained in its first turn (≤ 10 items),
+comparison is per server and actor when every such server is drained in its first turn (≤ `d` items),
 and of the order-independent unions otherwise.  The three theorems below are additionally checked as
 an oracle on the real messages of every session.  Peers whose handshake fails are simply not in
 `peers`.  Not modelled and not exercised: a failing `encode_sync_msg` / `write_buf` in the sending
@@ -359,6 +363,37 @@ theorem dedup_no_duplicates (k d : Nat) (hk : 1 ≤ k) (hd : 1 ≤ d) (us : Sync
   | full lo hi => exact this.2.1
   | part v sq => exact this.2.2.1
 
+/-! ### the constants the code has today (regenerated: `Corro/Gen/SyncConsts.lean`) -/
+
+/-- the session exactly as the code runs it: chunk size and drain count as extracted from
+`parallel_sync` (`chunk_range(versions, k)`, `while drained < d`).  This is what the driver prints. -/
+def codeSession (us : SyncState) (peers : List SyncState) : List (Actor × Actor × Need) :=
+  syncSession Corro.Gen.SyncConsts.syncChunkSize Corro.Gen.SyncConsts.syncDrainPerRound us peers
+
+/-- The side conditions `k ≥ 1`, `d ≥ 1` of the three theorems above hold for the constants found in
+the source (re-checked on every run against the regenerated file; a retune to `0` — `step_by(0)`
+panics, `while drained < 0` never sends — is the only retune that fails here). -/
+theorem code_consts_admissible :
+    1 ≤ Corro.Gen.SyncConsts.syncChunkSize ∧ 1 ≤ Corro.Gen.SyncConsts.syncDrainPerRound := by decide
+
+/-- Instantiation of `dedup_preserves_union`, `dedup_within_server`, `dedup_no_duplicates` at the
+code's own constants, with no hypothesis left on them. -/
+theorem code_session_sound (us : SyncState) (peers : List SyncState) (hu : us.WF)
+    (hp : ∀ p ∈ peers, p.WF) :
+    ((∀ a x, (∃ srv lo hi, (srv, a, Need.full lo hi) ∈ codeSession us peers ∧ lo ≤ x ∧ x ≤ hi) ↔
+        ∃ p ∈ peers, ∃ ns lo hi, (a, ns) ∈ computeAvailableNeeds us p ∧ Need.full lo hi ∈ ns ∧
+          lo ≤ x ∧ x ≤ hi) ∧
+     (∀ a v s, (∃ srv sq, (srv, a, Need.part v sq) ∈ codeSession us peers ∧ Mem sq s) ↔
+        ∃ p ∈ peers, ∃ ns sq, (a, ns) ∈ computeAvailableNeeds us p ∧ Need.part v sq ∈ ns ∧
+          Mem sq s)) ∧
+    (∀ srv a n, (srv, a, n) ∈ codeSession us peers →
+      ∃ p ∈ peers, p.actor = srv ∧ ∃ ns n0, (a, ns) ∈ computeAvailableNeeds us p ∧ n0 ∈ ns ∧
+        n.SubOf n0) ∧
+    (codeSession us peers).Pairwise DisjointReq :=
+  ⟨dedup_preserves_union _ _ code_consts_admissible.1 code_consts_admissible.2 us peers hu hp,
+   dedup_within_server _ _ code_consts_admissible.1 code_consts_admissible.2 us peers hu hp,
+   dedup_no_duplicates _ _ code_consts_admissible.1 code_consts_admissible.2 us peers hu hp⟩
+
 /-! ### non-vacuity: concrete well-formed states exercising every branch -/
 
 /-- we: actor 1; know actor 2 up to 3, need its version 1, hold version 3 partially. -/
@@ -377,7 +412,7 @@ example : Holds exPeer 2 1 ∧ Lacks exUs 2 1 ∧ Holds exPeer 2 6 ∧ Lacks exU
     Holds exPeer 3 2 ∧ Lacks exUs 3 2 := by decide
 example : computeAvailableNeeds exUs exPeer2 =
     [(2, [Need.full 1 1, Need.part 3 [(0, 1), (3, 3)], Need.full 4 25])] := by decide
-/-- a session with both peers: the second server is asked only for what the first was not. -/
+/-- a session with both peers (at `k = d = 10`): the second server is asked only for what the first was not. -/
 example : syncSession 10 10 exUs [exPeer, exPeer2] =
     [(9, 3, Need.full 1 2), (9, 2, Need.full 4 6), (9, 2, Need.part 3 [(0, 0)]), (9, 2, Need.full 1 1),
      (8, 2, Need.full 24 25), (8, 2, Need.full 14 23), (8, 2, Need.full 7 13),
